@@ -190,7 +190,9 @@ func Prop(c Case, x *h.Ctx) *h.Violation {
 
 func dbProp(c Case, x *h.Ctx, dir string) *h.Violation {
 	if gs := settledGoroutines(); len(gs) > 0 {
-		return h.V("resources/harness", "library goroutines alive before the case started:\n%s", gs[0])
+		// a precondition of the measurement, not an observation about this case: the previous case's own check after
+		// its Close decides about leaks
+		panic(h.Infra{Msg: "library goroutines alive before the case started: " + strings.SplitN(gs[0], "\n", 2)[0]})
 	}
 	db, err := sdb.Open(dir, c.Opts)
 	if err != nil {
@@ -273,7 +275,7 @@ func dbProp(c Case, x *h.Ctx, dir string) *h.Violation {
 		return h.V("resources/db/dir-not-removable", "RemoveAll after Close: %v", err)
 	}
 	if err := os.MkdirAll(dir, 0o755); err != nil {
-		panic(err)
+		panic(h.Infra{Msg: "harness file operation failed: " + err.Error()})
 	}
 	db, err = sdb.Open(dir, c.Opts)
 	if err != nil {
